@@ -181,7 +181,11 @@ impl<'c, 'ch: 'c> Records<'c, 'ch> {
             )
             .map_err(|e| io::Error::new(io::ErrorKind::InvalidData, e))?;
 
-            prev_alignment_start + alignment_start_or_delta
+            prev_alignment_start
+                .checked_add(alignment_start_or_delta)
+                .ok_or_else(|| {
+                    io::Error::new(io::ErrorKind::InvalidData, "invalid alignment start delta")
+                })?
         } else {
             alignment_start_or_delta
         };
